@@ -66,7 +66,7 @@ def cases(tier, seed):
                         continue   # invalid signature is rejected before charges are looked at: one slice suffices
                     out.append({'id': f'leg-{sym}-k{nsect}-s{s}-c{c0}', 'kind': 'leg', 'sym': sym, 'nsect': nsect, 's': s, 'slice': c0, 'tier': tier, 'seed': seed})
     # three sectors (repeated charges that are not adjacent, sorting of three): valid dimensions only, narrow charge box
-    for sym in ('Z2', 'Z3', 'U1', 'U1xU1xZ2' if tier == 'thorough' else 'Z2'):
+    for sym in ('Z2', 'Z3', 'U1', 'Z2xU1' if tier == 'thorough' else 'Z2'):      # (U1xU1xZ2 with 3 sectors: 9 symbolic charges, > 5.6e4 paths per slice in 50 min: beyond the budget)
         if tier == 'thorough' and len(MOD[sym]) == 1:
             continue     # covered by the full 3-sector box above
         for s in (-1, 1):
